@@ -51,6 +51,11 @@ impl<R: Read + Seek> ReadBox<&mut R> for EdtsBox {
         let start = box_start(reader)?;
 
         let mut edts = EdtsBox::new();
+        if size <= HEADER_SIZE {
+            // empty edts: there is no child to read
+            skip_bytes_to(reader, start + size)?;
+            return Ok(edts);
+        }
 
         let header = BoxHeader::read(reader)?;
         let BoxHeader { name, size: s } = header;
